@@ -908,14 +908,33 @@ class WorkflowConductor(object):
             # Update the index value since a new entry is created.
             task_state_idx = self._get_task_state_idx(task_id, route)
 
+        # A with-items task that is staged again for a retry has no items until it is offered
+        # by get_next_tasks. An item report that arrives in between is a late report from the
+        # previous execution of the task. It must not unstage the retry and there is no item
+        # in the staged task to record the status for.
+        is_late_item_report = (
+            isinstance(event, events.TaskItemActionExecutionEvent)
+            and staged_task is not None
+            and "items" not in staged_task
+        )
+
         # Remove task from staging if task is not with items.
-        if event.status and staged_task and "items" not in staged_task:
+        if (
+            event.status
+            and staged_task
+            and "items" not in staged_task
+            and not is_late_item_report
+        ):
             self.workflow_state.remove_staged_task(task_id, route)
 
         # If action execution is for a task item, then record the execution status for the item.
         # Result for each item is not recorded in the staged_task because it impacts database
         # write performance if there are a lot of items and/or item result size is huge.
-        if staged_task and isinstance(event, events.TaskItemActionExecutionEvent):
+        if (
+            staged_task
+            and isinstance(event, events.TaskItemActionExecutionEvent)
+            and not is_late_item_report
+        ):
             staged_task["items"][event.item_id] = {"status": event.status}
 
         # Log the error if it is a failed execution event.
